@@ -3,14 +3,14 @@ CONSTANTS
   Svcs = {"a", "b", "c"}
   Cap = 2
   MaxOps = 4
-  MaxFails = 2
+  MaxFails = 1
   FixEnqueue = TRUE
   FixBatch = TRUE
   LossySend = TRUE
   HasKeepalive = TRUE
-  DirectCalls = TRUE
-  MaxMsgLen = 1
+  DirectCalls = FALSE
+  MaxMsgLen = 3
   AsyncApply = FALSE
-INVARIANTS NotW7
-
+INVARIANTS TypeOK InSync SetTracksDeps NoDeadlock
+PROPERTIES Converges CallerReturns KeepsRetrying
 CHECK_DEADLOCK FALSE
